@@ -13,7 +13,7 @@ RULE = ("the sixteen documented identities (CE=NLL.log_softmax, BCEwL=BCE.sigmoi
         "side). distinct key = (identity, arguments); non-trivial = result has > 1 element")
 ASSUMPTIONS = ["sigmoid/BCE pair and log(softmax) pair on moderate logits (|x|<=4) with tolerance 1e-6: one side contains the 1e-12 guard constants",
                "pooling identities use tie-free inputs so that both sides pick the same arg-max"]
-SHARD_TIMEOUT = {"quick": 600, "thorough": 1800}
+SHARD_TIMEOUT = {"quick": 900, "thorough": 3600}
 IDS = ["ce", "bcewl", "logsoftmax", "linear", "addmm", "conv2d", "conv1d", "maxpool2d", "avgpool2d", "maxpool1d", "avgpool1d", "sub", "div", "mean",
        "stack", "unbind", "flatten", "movedim", "neuron", "sequential"]
 
